@@ -222,6 +222,9 @@ def run_case(case, ctx):
     b = max(loy, min(hiy, b))
     x = Fxp(a, sx, w, nf, raw=True)
     y = Fxp(b, sy, w, rng.choice([0, w // 2]), raw=True)
+    if i % 3 == 0:
+        x = G.historied(Fxp, x, rng)[0]
+        y = G.historied(Fxp, y, rng)[0]
     _try(lambda: ~x)
     _try(lambda: x & y)
     _try(lambda: x | y)
